@@ -1062,6 +1062,12 @@ def arr_setitem(I, a, k, v):
         return ite(I, c, nv, old(idx))
     a.fn = fn
     propagate_view_write(I, a)
+    if all(kind == 'int' for kind, st, ln in win) and any(isinstance(st, Sym) for kind, st, ln in win):
+        # a single element stored at a symbolic index: later universally quantified facts about arrays of this rank (any / all /
+        # min / max) are instantiated at that index as well, like at witness indices - otherwise `a[p] = 1; a.any()` stays open
+        from . import m_numpy
+        idx = tuple(st if isinstance(st, Sym) else mk(z3.IntVal(st), 'int') for kind, st, ln in win)
+        m_numpy.add_witness(I, tuple(a.shape) if len(idx) > 1 else a.shape[0], idx if len(idx) > 1 else idx[0])
 
 
 def propagate_view_write(I, a):
